@@ -64,13 +64,11 @@ SplitAgrees ==
         /\ \A i \in 1..Len(s) : /\ R.ranges[i][1] = RngStart(s[i])
                                 /\ R.ranges[i][2] = RngEnd(s[i])
 
-(* "terminates": termRange.Enumerate walks every emitted range byte string *)
-(* by byte string; a query is answered in reasonable time only if that walk *)
-(* is short (judged in a config of its own: open finding)                   *)
-EnumLimit == 1048576
+(* "terminates": termRange.Enumerate walks every emitted range term by term; *)
+(* by the enumeration model of Numeric.tla the walk over each range is short *)
 SplitEnumBounded ==
   Is("split") /\ (\A i \in 1..Len(R.ranges) : RangeWF(R.ranges[i])) =>
-     \A i \in 1..Len(R.ranges) : EnumWithin(R.ranges[i][1], R.ranges[i][2], EnumLimit)
+     \A i \in 1..Len(R.ranges) : EnumWithin(R.ranges[i][1], R.ranges[i][2], 2 * B + BB)
 
 -----------------------------------------------------------------------------
 (* float <-> sortable int64, prefix coding *)
@@ -96,8 +94,8 @@ Less(typ, x, y) == IF typ = "num" THEN FloatLessD(x, y) ELSE SLess(x, y)
 Leq(typ, x, y)  == IF typ = "num" THEN FloatLeqD(x, y)  ELSE SLeq(x, y)
 
 (* nil inclusive flags default to: min inclusive, max exclusive.  An open   *)
-(* end of a numeric range is the infinity of that side with its flag; an    *)
-(* open end of a date range is unbounded.                                   *)
+(* end is the end of the number line of that side with its flag: -Inf/+Inf  *)
+(* for numbers, the first/last representable nanosecond for dates.          *)
 IncMin(r) == r.incMin # 1
 IncMax(r) == r.incMax = 2
 PosInf == <<7, 15, 15>> \o [i \in 1..13 |-> 0]
@@ -105,10 +103,10 @@ NegInf == <<15, 15, 15>> \o [i \in 1..13 |-> 0]
 
 AboveMin(r, v) ==
   IF r.hasMin THEN (IF IncMin(r) THEN Leq(r.typ, r.min, v) ELSE Less(r.typ, r.min, v))
-  ELSE r.typ = "date" \/ IncMin(r) \/ Less(r.typ, NegInf, v)
+  ELSE IncMin(r) \/ Less(r.typ, IF r.typ = "date" THEN MinVal ELSE NegInf, v)
 BelowMax(r, v) ==
   IF r.hasMax THEN (IF IncMax(r) THEN Leq(r.typ, v, r.max) ELSE Less(r.typ, v, r.max))
-  ELSE r.typ = "date" \/ IncMax(r) \/ Less(r.typ, v, PosInf)
+  ELSE IncMax(r) \/ Less(r.typ, v, IF r.typ = "date" THEN MaxVal ELSE PosInf)
 
 DocMatches(r, vals) == \E j \in 1..Len(vals) : AboveMin(r, vals[j]) /\ BelowMax(r, vals[j])
 
